@@ -143,12 +143,13 @@ func diffGlobals(a, b map[string]string) string {
 // ---------------------------------------------------------------------------
 
 type replPiece struct {
-	Src       string
-	Fault     string // "" for ordinary pieces
-	Effective string // what W and A0 see of this piece ("" = nothing)
-	HasValue  bool   // ends with an expression statement whose value is compared
-	Delta     int    // cancel/deadline: steps after the piece starts
-	Stale     map[int]int
+	Src        string
+	Fault      string // "" for ordinary pieces
+	Effective  string // what W and A0 see of this piece ("" = nothing)
+	HasValue   bool   // ends with an expression statement whose value is compared
+	Delta      int    // cancel/deadline: steps after the piece starts
+	Stale      map[int]int
+	Background bool // the piece runs under context.Background(), which can never be cancelled
 }
 
 func genSession(g, f *sim.Stream, tier string) (pieces []*replPiece, finalExpr string) {
@@ -258,7 +259,16 @@ func genSession(g, f *sim.Stream, tier string) (pieces []*replPiece, finalExpr s
 		id := 9000 + i*10
 		fp := &replPiece{Stale: map[int]int{}}
 		later := laterDefs(pos)
-		switch f.Intn(14) {
+		switch f.Intn(16) {
+		case 14:
+			// rejected inside a function literal that is a later pipe stage
+			fp.Fault = "compile-undefined"
+			fp.Src = fmt.Sprintf("mark(%d, 1); %d | func(v) { return undefined_p%d(v) }", id, 40+i, i)
+		case 15:
+			// the piece fails while a submodule it from-imports is being evaluated
+			fp.Fault = "runtime"
+			fp.Src = fmt.Sprintf("mark(%d, 4); arm(); from pkg import flaky as scratchf%d; disarm(); error(\"rt-from-%d\")", id, i, i)
+			fp.Effective = fmt.Sprintf("mark(%d, 4)", id)
 		case 12:
 			// the piece fails while a module it imports is being evaluated (the
 			// host makes the module body fail this once)
@@ -361,6 +371,11 @@ func genSession(g, f *sim.Stream, tier string) (pieces []*replPiece, finalExpr s
 			out = append(out, pieces[pos])
 		}
 	}
+	for _, p := range out {
+		if p.Fault == "" && f.Chance(1, 4) {
+			p.Background = true
+		}
+	}
 	// stale cancels of earlier pieces' contexts during later pieces
 	for i := range out {
 		for j := 0; j < i; j++ {
@@ -412,6 +427,12 @@ func c18Extras(g *sim.Stream, stmts []Stmt) []Stmt {
 			}
 		}
 		if g.Bool() {
+			extra = append(extra, Stmt{Src: "from pkg import flaky"}, mark("flaky.val"))
+			if g.Bool() {
+				extra = append(extra, Stmt{Src: "from pkg import flaky as fl2"}, mark("fl2.twice(3)"))
+			}
+		}
+		if g.Bool() {
 			switch g.Intn(3) {
 			case 0:
 				extra = append(extra, Stmt{Src: "import rmod"})
@@ -451,6 +472,7 @@ func c18Extras(g *sim.Stream, stmts []Stmt) []Stmt {
 }
 
 const c18Rmod = "n := 0\nfirst := 1\nmfail()\nsecond := 2\nfunc get() { return first + second }\nfunc bump() { n = n + 1; return n }\n"
+const c18Flaky = "pre := 1\nmfail()\nval := 7\nfunc twice(x) { return x * 2 + pre - 1 }\n"
 const c18Badcfg = "early := 1\n[1][5]\nlate := 2\n"
 
 func hostFailBuiltin() *object.Builtin {
@@ -510,7 +532,7 @@ func runC18(rc *fw.RunCtx) {
 			gnames = append(gnames, k)
 		}
 		sort.Strings(gnames)
-		mfs := fstest.MapFS{"rmod.risor": &fstest.MapFile{Data: []byte(c18Rmod)}, "badcfg.risor": &fstest.MapFile{Data: []byte(c18Badcfg)}}
+		mfs := fstest.MapFS{"rmod.risor": &fstest.MapFile{Data: []byte(c18Rmod)}, "badcfg.risor": &fstest.MapFile{Data: []byte(c18Badcfg)}, "pkg/flaky.risor": &fstest.MapFile{Data: []byte(c18Flaky)}}
 		imp := importer.NewFSImporter(importer.FSImporterOptions{GlobalNames: gnames, SourceFS: mfs, Extensions: []string{".risor"}})
 		cfg := risor.NewConfig(append(baseOpts(extra), risor.WithImporter(imp))...)
 		skip := map[string]bool{}
@@ -590,6 +612,9 @@ func runC18(rc *fw.RunCtx) {
 			cur = i
 			if p.Fault == "deadline" {
 				ctxs[i], cancels[i] = context.WithTimeout(bg, 40*time.Millisecond)
+			} else if p.Background {
+				ctxs[i], cancels[i] = bg, func() {}
+				rc.Hit("piece_under_background_context")
 			} else {
 				ctxs[i], cancels[i] = context.WithCancel(bg)
 			}
